@@ -382,7 +382,7 @@ def gen_base(rng, tier, mode="api", snan_ok=True, small=False):
 
 HDR_CLASSES = ["hdr_magic", "hdr_pad", "hdr_size", "hdr_version", "attr_type", "attr_flag", "attr_rsv", "attr_name",
                "attr_value", "term_first", "term_rest", "hdr_tail"]
-MUST_FAIL = set(HDR_CLASSES) | {"ct", "tag", "aad", "key"}
+MUST_FAIL = set(HDR_CLASSES) | {"ct", "tag", "ftr_size", "aad", "key"}   # ftr_size: the tag used is data[:size]
 
 
 def gen_tamper(rng, case):
@@ -438,11 +438,14 @@ def sweep(rng, base):
     for cls, s, e in b.regions:
         if cls.startswith("attr_") or cls.startswith("term") or cls in ("tag", "hdr_size", "hdr_version", "ftr_size"):
             for off in range(s, e):
-                c = copy.deepcopy(base)
-                c["tamper"] = {"kind": "file", "cls": cls, "off": off, "xor": rng.weighted([(1, 1), (0x80, 1), (0xFF, 1),
-                                                                                           (rng.randrange(1, 256), 2)])}
-                c["kind"] = "sweep"
-                out.append(c)
+                xors = [rng.weighted([(1, 1), (0x80, 1), (0xFF, 1), (rng.randrange(1, 256), 2)])]
+                if cls in ("ftr_size", "hdr_size", "hdr_version", "attr_type", "tag") and b.file[off]:
+                    xors.append(b.file[off])        # directed: the byte becomes 0 (e.g. tag size 16 -> 0)
+                for x in dict.fromkeys(xors):
+                    c = copy.deepcopy(base)
+                    c["tamper"] = {"kind": "file", "cls": cls, "off": off, "xor": x}
+                    c["kind"] = "sweep"
+                    out.append(c)
     return out
 
 
@@ -679,6 +682,7 @@ class EnvelopeSuite(Suite):
             if a.get("n") == N_KEYHASH.hex():
                 a["v"] = hashlib.sha256(CIPHER + key).hexdigest()
         c["ks_text"] = keystore_text(kid, d1, d2, rng, rng.pick(["esx", "esx", "all", "plain"]))
+        c["pre_out"] = rng.chance(0.5)          # the -o file already exists with other content
         k = rng.weighted([("clean", 5), ("tamper", 3), ("bad_keystore", 1), ("bad_envelope", 1), ("other_keystore", 1)])
         c["cli_kind"] = k
         if k == "tamper":
@@ -769,6 +773,10 @@ class EnvelopeSuite(Suite):
             fh.write(b.file)
         with open(ksp, "w", encoding="utf-8", newline="") as fh:
             fh.write(case["ks_text"])
+        stale = b"stale output that must not survive\n" * 400
+        if case.get("pre_out"):
+            with open(outp, "wb") as fh:
+                fh.write(stale)
         argv = ["envelope-decrypt", envp, "-ks", ksp, "-o", outp]
         if b.aad:
             argv += ["--aad", b.aad.decode("utf-8")]
@@ -789,6 +797,8 @@ class EnvelopeSuite(Suite):
             sys.argv, sys.stderr = old
         res["listing"] = sorted(os.listdir(d))
         res["out"] = open(outp, "rb").read() if os.path.exists(outp) else None
+        if case.get("pre_out") and res["out"] == stale:
+            res["out"] = None                   # untouched: as if absent
         res["inputs_intact"] = open(envp, "rb").read() == b.file and \
             open(ksp, encoding="utf-8", newline="").read() == case["ks_text"]
         writes = [e for e in events if e[2] is None or (isinstance(e[1], str) and any(ch in e[1] for ch in "wax+"))]
